@@ -181,7 +181,8 @@ static edn_value_t* h4(edn_value_t* v, edn_arena_t* a, const char** msg) {
             memset(p, 0xAB, (size_t) n);
         }
     }
-    edn_value_t* r = edn_external_create(a, (void*) (uintptr_t) 42, 7);
+    /* the external value's data "pointer" is the operand itself when it is an integer 1..2^20, else 42 */
+    edn_value_t* r = edn_external_create(a, (void*) (uintptr_t) ((edn_type(v) == EDN_TYPE_INT && n >= 1 && n <= (1 << 20)) ? n : 42), 7);
     if (r && ((uintptr_t) r & 7u) != 0) g_misaligned = 1;
     return r;
 }
